@@ -282,8 +282,6 @@ addIfNotFound(
 }
 
 
-static const NodeRefList    theEmptyList(XalanMemMgrs::getDummyMemMgr());
-
 void
 KeyTable::processKeyDeclaration(
             KeysMapType&                    theKeys,
@@ -296,7 +294,16 @@ KeyTable::processKeyDeclaration(
     // use attribute in xsl:key.
     assert(kd.getUse() != 0);
 
-    const XObjectPtr    xuse(kd.getUse()->execute(testNode, resolver, theEmptyList, executionContext));
+    // The use expression is evaluated with the node as the current node
+    // and with a node list containing just that node as the current node
+    // list (XSLT 1.0, section 12.2), so position() and last() are 1.
+    typedef StylesheetExecutionContext::BorrowReturnMutableNodeRefList  BorrowReturnMutableNodeRefList;
+
+    BorrowReturnMutableNodeRefList  theContextList(executionContext);
+
+    theContextList->addNode(testNode);
+
+    const XObjectPtr    xuse(kd.getUse()->execute(testNode, resolver, *theContextList, executionContext));
 
     if(xuse->getType() != XObject::eTypeNodeSet)
     {
